@@ -4,11 +4,13 @@ import (
 	"crypto/sha256"
 	"encoding/json"
 	"fmt"
+	"math/big"
 	"os"
 	"path/filepath"
 	"regexp"
 	"strings"
 	"testing"
+	"unicode"
 
 	"pgregory.net/rapid"
 	"verif/harness/batlint"
@@ -33,17 +35,22 @@ var reImportPath = regexp.MustCompile(`"([A-Za-z0-9_./]+)"`)
 // userFunctions returns the labels the program's own functions get in the Batch script.
 func userFunctions(files map[string]string, main string) map[string]bool {
 	out := map[string]bool{}
+	// every decoration the emitter may put around a user function name (prefix u_, upper-case position suffix)
+	variants := func(name string) {
+		out[strings.ToLower(name)] = true
+		out[strings.ToLower(name)+"_"+caseCode(name)] = true
+	}
 	for _, m := range reFuncName.FindAllStringSubmatch(files[main], -1) {
-		out[strings.ToLower(m[1])] = true
-		out[strings.ToLower("u_"+m[1])] = true
+		variants(m[1])
+		variants("u_" + m[1])
 	}
 	add := func(content string) {
 		h := sha256.Sum256([]byte(content))
 		prefix := fmt.Sprintf("%x", h[:])[0:7]
 		for _, m := range reFuncName.FindAllStringSubmatch(content, -1) {
 			for _, pre := range []string{"", "u_"} {
-				out[strings.ToLower(pre+prefix+"_"+m[1])] = true
-				out[strings.ToLower(pre+"m"+prefix+"_"+m[1])] = true
+				variants(pre + prefix + "_" + m[1])
+				variants(pre + "m" + prefix + "_" + m[1])
 			}
 		}
 	}
@@ -62,6 +69,17 @@ func userFunctions(files map[string]string, main string) map[string]bool {
 		}
 	}
 	return out
+}
+
+// caseCode is the hexadecimal bitmap of the upper-case letter positions of name.
+func caseCode(name string) string {
+	n := new(big.Int)
+	for i, r := range name {
+		if unicode.IsUpper(r) {
+			n.SetBit(n, i, 1)
+		}
+	}
+	return n.Text(16)
 }
 
 // checkWellFormed returns (backend, rule, message) of the first problem, or "".
